@@ -17,7 +17,7 @@ man = json.load(open(f"{V}/MANIFEST.json"))
 claimed = [c["property_id"] for c in man["checks"]]
 SD = "seeded_harmless"
 seeds = args or sorted(d for d in os.listdir(f"{V}/{SD}") if os.path.isdir(f"{V}/{SD}/{d}"))
-res_path = f"{V}/seeded_harmless/RESULTS.json"
+res_path = os.environ.get("VERIF_MATRIX_RESULTS", "/verif/seeded_harmless/RESULTS.json")
 results = json.load(open(res_path)) if os.path.exists(res_path) else {}
 
 def files_of(p):
